@@ -77,8 +77,28 @@ theorem bound_covers {signer : Name} {m : Msg} {r : RR} {k : Key} {s : Sig}
     (hb : Bound now k s (rrsetOf (collected signer m) (keyOf r))) :
     s.owner = r.owner ∧ s.covered = r.rtype ∧ s.cls = r.cls ∧ s.labels ≤ r.owner.length ∧
       nameInZone r.owner s.signer = true ∧ k.owner = s.signer ∧ inWindow now s = true := by
-  obtain ⟨h1, h2, h3, h4, h5, _⟩ := sigMatches_key hb.fits
+  obtain ⟨h1, h2, h3, h4, h5, _, _⟩ := sigMatches_key hb.fits
   exact ⟨h1, h2, h3, h4, h5, hb.owner, hb.window⟩
+
+/-- **No wildcard-expanded denial record** (a691674): an NSEC / NSEC3 RRset is never accepted under a
+signature that counts fewer labels than its owner has — the wildcard's own NSEC renamed onto an
+existing name would otherwise deny that name's types and neighbours "with authentication". -/
+theorem accepted_denial_is_not_expanded {signer : Name} {m : Msg} {r : RR} {k : Key} {s : Sig}
+    (hb : Bound now k s (rrsetOf (collected signer m) (keyOf r))) (hd : r.rtype = 47 ∨ r.rtype = 50) :
+    sigExpands r.owner s.labels = false := by
+  obtain ⟨_, h2, _, _, _, _, hx⟩ := sigMatches_key hb.fits
+  unfold expandedDenial at hx
+  have hc : (s.covered == 47 || s.covered == 50) = true := by
+    rw [h2]; unfold keyOf; rcases hd with h | h <;> simp [h]
+  rw [hc] at hx
+  have : (keyOf r).1 = r.owner := rfl
+  rw [this] at hx
+  simpa using hx
+
+example : sigMatchesRRset { id := 1, owner := ["example", "host"], covered := 47, alg := 13, labels := 1, expiration := 0, inception := 0, tag := 1, signer := ["example"] }
+    [{ owner := ["example", "host"], rtype := 47 }] = false := by decide
+example : sigMatchesRRset { id := 1, owner := ["example", "*"], covered := 47, alg := 13, labels := 1, expiration := 0, inception := 0, tag := 1, signer := ["example"] }
+    [{ owner := ["example", "*"], rtype := 47 }] = true := by decide
 
 /-- **With unforgeable signatures accepted data is published data.**
 HYPOTHESIS `uf` (not provable here, it is the cryptographic assumption): a
@@ -382,6 +402,33 @@ theorem nodata3_ds_optout_only {v : N3View} (hex : v.exact = none) :
     simp only [if_true]
     split <;> simp_all
 
+/-- **The NSEC3 proof of an insecure delegation** (RFC 5155 §8.9, §7.2.1): accepted only on a record
+matching the delegation name with NS set and DS and SOA clear, or — Opt-Out — on a closest provable
+encloser that is itself NO delegation point / DNAME owner together with an Opt-Out record covering
+the next closer name.  (A cut fabricated below a SECURE delegation has that delegation as its
+closest encloser and is refused.) -/
+theorem delegation3_proof {v : N3View} (h : verifyDelegation3 v = .insecure) :
+    (v.exact = some (true, false, false)) ∨
+    (v.exact = none ∧ v.ceFound = true ∧ v.ceBad = false ∧ v.cover = some true) := by
+  unfold verifyDelegation3 at h
+  split at h
+  · rename_i ns ds soa hex
+    left
+    cases ns <;> cases ds <;> cases soa <;> simp_all
+  · rename_i hex
+    right
+    split at h; · cases h
+    split at h; · cases h
+    rename_i hce hbad
+    split at h
+    · cases h
+    · cases h
+    · rename_i hc
+      exact ⟨hex, by simpa using hce, by simpa using hbad, hc⟩
+
+example : verifyDelegation3 { ceFound := true, ceBad := true, cover := some true } = .badDelegation := by decide
+example : verifyDelegation3 { ceFound := true, cover := some true } = .insecure := by decide
+
 -- the seeded shape: cover has Opt-Out set, the wildcard's own record has it clear → not secure
 example : verifyNODATA3 false { ceFound := true, cover := some true, wild := some (false, false) } = .insecure := by decide
 example : verifyNODATA3 false { ceFound := true, cover := some false, wild := some (false, true) } = .secure := by decide
@@ -680,6 +727,29 @@ theorem verdict_rests_on_authentic_keys (c : Codec) (anchors : List Key) (rootKe
       obtain ⟨s, hs, k, hkk, hb, hsv, _⟩ := (verifyRRSIG_sound hok).2 r hr
       exact ⟨s, hs, k, hkk, hb, hsv⟩
     · cases hv
+
+/-- **"Insecure" never comes from the response under check.**  `verifyDNSSEC` says `(false, nil)` —
+which every caller reads as "treat as unsigned" — only when the PARENT's DS RRset has no member this
+validator can use (RFC 6840 §5.2) or the question is for RRSIG records themselves; whatever the
+response's own RRSIGs claim (unimplemented algorithm, unknown key tag, …) ends in `verified` or in an
+error, because `verifyRRSIG` has no third verdict. -/
+theorem insecure_verdict_only_from_parent_ds {signer : Name} {dnskeys : List Key} {pds : List DS} {isKey qR : Bool} {resp : Msg}
+    (h : verifyDNSSEC sv dm now signer dnskeys pds isKey qR resp = .insecure) :
+    verifyDS dm (zoneKeys signer dnskeys) pds = .unsupportedOnly ∨
+      (verifyDS dm (zoneKeys signer dnskeys) pds = .matched ∧ qR = true) := by
+  unfold verifyDNSSEC at h
+  simp only at h
+  split at h; · cases h
+  split at h; · cases h
+  split at h
+  · rename_i hds; exact Or.inl hds
+  · cases h
+  · rename_i hds
+    split at h
+    · rename_i hq; exact Or.inr ⟨hds, hq⟩
+    · split at h <;> cases h
+
+example : ∀ r : Res, r = .ok ∨ ∃ e, r = .fail e := by intro r; cases r <;> simp
 
 /-- an authentic chain starts at a configured anchor: with an empty trust set nothing is authentic. -/
 theorem authentic_needs_anchor (c : Codec) (anchors : List Key) (z : Name) (ks : List Key)
